@@ -18,6 +18,7 @@ type envState struct {
 	randVar     map[int]int
 	randClaimed map[int]bool
 	secretVars  map[int]bool
+	sigChans    []*ChanObj
 	lastMarshalled Value
 	yamlDocs    map[string]interface{} // resolved path -> Iface document (nil = malformed)
 }
